@@ -477,6 +477,8 @@ def shared_radio_rules(ctx):
     rls = gcz.find(lambda q: method_call(q, 'close') and norm(q.func.value) == 'self._radio')
     ctx.inst('R7', clz, 'thread-stopped-before-dongle-released', len(stp) == 1 and len(rls) == 1 and gcz.dominates(stp[0][0], rls[0][0]),
              'RadioDriver.close stops (joins) the radio thread on every path before it closes its radio instance')
+    from .c20 import radio_request_settings_rules
+    radio_request_settings_rules(ctx, 'R11')      # channel / address / rate of the request are programmed before its transmission (shared with C20.R4)
     # pause() / restart(): restart() starts a new radio thread unless its guard says one is running; pause() stops the thread, so it
     # must leave that guard false, otherwise the link accepts packets after restart() and nothing transmits them
     RDc = m.cls(RD, 'RadioDriver')
@@ -495,6 +497,7 @@ def shared_radio_rules(ctx):
 
 
 VARIANTS = [
+    M('R11', RD, "                self._radio.set_channel(channel)\n                self._radio.set_address(address)\n                self._radio.set_data_rate(datarate)\n                ack = self._radio.send_packet(data)\n", "                self._radio.set_channel(channel)\n                self._radio.set_data_rate(datarate)\n                ack = self._radio.send_packet(data)\n                self._radio.set_address(address)\n", 'address programmed after the transmission'),
     M('R1', RD, "        packet[0] &= 0xF3\n", "        packet[0] &= 0xF7\n", 'clear mask'),
     M('R1', RD, "           (resp.data[0] & 0x04) == (self._curr_down << 2):", "           (resp.data[0] & 0x08) == (self._curr_down << 2):", 'reply mask'),
     M('R2', RD, "        if resp and resp.ack:\n            self._curr_up = 1 - self._curr_up", "        if resp:\n            self._curr_up = 1 - self._curr_up", 'uplink flips without ack'),
